@@ -7,6 +7,7 @@ two `≤` relations are total preorders; they are then instantiated for the four
 -/
 import WzVerif.Lemmas.AcceptText
 import WzVerif.Lemmas.AcceptHeader
+import WzVerif.Lemmas.AcceptHeader2
 import WzVerif.Gen.AcceptTbl
 import WzVerif.Gen.AcceptApi
 namespace Wz.Props.C17
@@ -1169,15 +1170,29 @@ a text that `_q_value_re` and the range check accept and that denotes the same n
 (`0.5`, `0.001`, `0.0`, …): `decide` over all 1001 values. -/
 theorem rfc_qvalues_reprint : ∀ k, k ≤ 1000 → ReprOk ⟨k, 3⟩ = true := by decide +kernel
 
+/-- **General reprint theorem** (closes the former OPEN item): every quality `q ≤ 1` — all that
+`parse_accept_header` lets through (`parseQ_range`) — which `to_header` prints in positional
+notation prints as a token `_q_value_re` and the range check accept and that denotes the same
+number; proved from core's `Nat.toDigits` lemmas, for every number of decimals. -/
+theorem quality_reprints (q : Q) (hle : q.le Q.one = true) (hr : (qRepr q).isSome = true) :
+    ReprOk q = true := reprOk_of_le_one q hle hr
+
+/-- … and positional notation is left (Python prints `1e-05`, which would not parse back) exactly
+for a non-zero quality below `1e-4`. -/
+theorem to_header_positional_iff (q : Q) :
+    qRepr q = none ↔ q.norm.num ≠ 0 ∧ 4 < q.norm.scale ∧ q.norm.num * 10000 < 10 ^ q.norm.scale :=
+  qRepr_none_iff q
+
+example : (qRepr ⟨1, 5⟩).isSome = false ∧ (qRepr ⟨3333333333, 10⟩).isSome = true ∧
+    Q.le ⟨3333333333, 10⟩ Q.one = true := by decide
+
 /-- Normal form: for a non-empty object whose values are plain (token characters and `/`: media
 ranges without parameters, language tags, charsets, codings) and whose qualities reprint
-(`ReprOk`: all RFC qvalues by `rfc_qvalues_reprint`), `parse_accept_header(obj.to_header())` yields
-the same values in the same order with numerically equal qualities — nothing dropped, nothing
-reordered before the class sorts again.
--- OPEN: items carrying parameters (`text/html; level=1`: `to_header` writes `; ` inside the item,
--- which the element grammar of `parse_accept_text` does not cover; stream `accept-api` checks it),
--- and qualities below `1e-4`, for which Python prints `1e-05` — a text `_q_value_re` rejects, so the
--- item is lost on re-parse (`qRepr = none` in the model). -/
+(`ReprOk`: every quality in `{0} ∪ [1e-4, 1]` by `quality_reprints`), `parse_accept_header(obj.to_header())`
+yields the same values in the same order with numerically equal qualities — nothing dropped,
+nothing reordered before the class sorts again.
+-- (Items carrying parameters: `to_header_normal_form_params` below.) Qualities below `1e-4` are a real gap of the code, not of the proof: Python prints `1e-05`, a
+-- text `_q_value_re` rejects, so the item is lost on re-parse (`to_header_positional_iff`). -/
 theorem to_header_normal_form (self : List (Str × Q)) (hne : self ≠ [])
     (hv : ∀ it ∈ self, IsValueText it.1) (hq : ∀ it ∈ self, ReprOk it.2 = true) :
     ∃ t, toHeader self = some t ∧ parseAcceptRaw t = .ok (self.map reparsed) ∧
@@ -1189,6 +1204,55 @@ theorem to_header_normal_form (self : List (Str × Q)) (hne : self ≠ [])
       obtain ⟨it, hit, rfl⟩ := List.mem_map.mp he
       exact elemOf_wf it (hv it hit) (hq it hit))]
   rw [filterMap_elemOf self hq]
+
+/-- The normal form for everything `parse_accept_header` can have produced from plain values: the
+qualities are only required to be at most 1 and printable in positional notation. -/
+theorem to_header_normal_form_parsed (self : List (Str × Q)) (hne : self ≠ [])
+    (hv : ∀ it ∈ self, IsValueText it.1)
+    (hq : ∀ it ∈ self, it.2.le Q.one = true ∧ (qRepr it.2).isSome = true) :
+    ∃ t, toHeader self = some t ∧ parseAcceptRaw t = .ok (self.map reparsed) ∧
+      ∀ it ∈ self, (reparsed it).1 = it.1 ∧ Q.equiv (reparsed it).2 it.2 = true :=
+  to_header_normal_form self hne hv fun it hit => quality_reprints it.2 (hq it hit).1 (hq it hit).2
+
+
+/-- `parse_accept_header` on the text `to_header` writes for items that carry parameters
+(`value; k=v; k2=v2;q=0.5`: a blank after the `;` of every parameter, none before `q`): the
+general lexing theorem for elements whose parameters are preceded by arbitrary white space. -/
+theorem parse_accept_text_spaced (es : List SpElem) (hne : es ≠ []) (h : ∀ s ∈ es, s.WF) :
+    parseAcceptRaw (spHeaderText es) = .ok (es.filterMap fun s => s.e.item) :=
+  parseAcceptRaw_spHeader es hne h
+
+/-- Normal form, **with parameters** (closes the former OPEN item): for a non-empty object whose
+items are what `parse_accept_header` rebuilds — `value; key=token; …` with distinct lower-case
+keys — and whose qualities reprint (`quality_reprints`), `parse_accept_header(obj.to_header())`
+yields the same item texts in the same order with numerically equal qualities. Media ranges with
+parameters (`text/html; level=1;q=0.5`) included. -/
+theorem to_header_normal_form_params (its : List PItem) (hne : its ≠ [])
+    (hwf : ∀ x ∈ its, x.1.WF) (hq : ∀ x ∈ its, ReprOk x.2 = true) :
+    ∃ t, toHeader (its.map PItem.toItem) = some t ∧
+      parseAcceptRaw t = .ok ((its.map PItem.toItem).map reparsed) ∧
+      ∀ it ∈ its.map PItem.toItem, (reparsed it).1 = it.1 ∧ Q.equiv (reparsed it).2 it.2 = true := by
+  refine ⟨_, toHeader_spHeaderText its hq, ?_, ?_⟩
+  · rw [parse_accept_text_spaced (its.map spOf) (by simpa using hne)
+      (by
+        intro s hs
+        obtain ⟨x, hx, rfl⟩ := List.mem_map.mp hs
+        exact spOf_wf x (hwf x hx) (hq x hx))]
+    rw [filterMap_spOf its hq]
+  · intro it hit
+    obtain ⟨x, hx, rfl⟩ := List.mem_map.mp hit
+    exact reparsed_equiv _ (hq x hx)
+
+def exampleItems : List PItem :=
+  [(⟨"text/html".toList, [("level".toList, "1".toList), ("v".toList, "2".toList)], none⟩, ⟨5, 1⟩),
+   (⟨"*/*".toList, [], none⟩, Q.one)]
+
+example : exampleItems.map PItem.toItem =
+      [("text/html; level=1; v=2".toList, ⟨5, 1⟩), ("*/*".toList, Q.one)] ∧
+    toHeader (exampleItems.map PItem.toItem) = some "text/html; level=1; v=2;q=0.5,*/*".toList ∧
+    (parseAcceptRaw "text/html; level=1; v=2;q=0.5,*/*".toList).toOption =
+      some [("text/html; level=1; v=2".toList, ⟨5, 1⟩), ("*/*".toList, Q.one)] := by decide
+
 
 example : toHeader [("text/html".toList, ⟨500, 3⟩), ("*/*".toList, ⟨1000, 3⟩), ("a".toList, ⟨0, 0⟩)] =
       some "text/html;q=0.5,*/*,a;q=0.0".toList ∧
